@@ -86,7 +86,7 @@ pub fn run(tier: &str, only: Option<&Value>) -> i32 {
     let mut rep = Report::new("C10", tier);
     let all = graph_inputs(tier, false);
     let elsewhere = undefined_elsewhere();
-    rep.rule = "E1: every dependency graph over n<=3 types (4 thorough) with one field each = (by value | array | #[base] | pointer) x (any of the n types incl. itself | undefined name) or a built-in, every module assignment up to renaming (<=3 modules, with the needed imports); two-field graphs over a reduced alphabet; chains of length 1..12 declared forward/backward/interleaved and spread over modules; by-value cycles of length 1..6, pointer cycles, cycles broken by one pointer; undefined names in enum base / parameter / return type / extern value. Oracle: fixpoint model of resolvability; on Ok every declared field is in the output with the declared type (syn); on Err the listed types equal the model's set. Small graphs are additionally run under all resolution schedules (E2). distinct = distinct (family, n, model verdict, pyxis verdict, size of unresolved set)".into();
+    rep.rule = "E1: every dependency graph over n<=3 types (4 thorough) with one field each = (by value | array | #[base] | pointer) x (any of the n types incl. itself | undefined name) or a built-in, every module assignment up to renaming (<=3 modules, with the needed imports); two-field graphs over a reduced alphabet; chains of length 1..12 declared forward/backward/interleaved and spread over modules; by-value cycles of length 1..6, pointer cycles, cycles broken by one pointer; undefined names in enum base / parameter / return type / extern value; the generated vftable name in every position and relation to its owner; a module whose path equals the path of a type of its parent module. Oracle: fixpoint model of resolvability; on Ok every declared field is in the output with the declared type (syn); on Err the listed types equal the model's set. Small graphs are additionally run under all resolution schedules (E2). distinct = distinct (family, n, model verdict, pyxis verdict, size of unresolved set)".into();
     rep.assumptions = vec!["types with more than one field are #[packed] so that alignment rules do not mask resolution verdicts".into()];
     let only_i = only.map(|l| (l["space"].as_str().unwrap_or("").to_string(), l["index"].as_u64().unwrap_or(0) as usize, l["ps"].as_u64().unwrap_or(8) as usize));
     for ps in [4usize, 8] {
@@ -146,6 +146,42 @@ pub fn run(tier: &str, only: Option<&Value>) -> i32 {
             };
             if let Some((key, detail)) = viol {
                 rep.violation(Violation { key, features: vec![format!("position:{pos}")], input: input.clone(), ps, detail, locator: json!({"space": "elsewhere", "index": k, "ps": ps}) });
+            }
+        }
+        // a module whose path is also the path of a type of its parent module: its own definitions
+        // are still definitions (by value, by pointer, in signatures, as enum base users)
+        for (k, (child, want)) in [
+            ("pub type Shade {\n    pub v: u32,\n}\npub type Pair {\n    pub a: Shade,\n    pub b: [Shade; 3],\n}\n", "crate::ui::Widget::Shade"),
+            ("pub type Pair {\n    pub a: *const Shade,\n}\npub type Shade {\n    pub v: *const Pair,\n}\n", "crate::ui::Widget::Shade"),
+            ("pub enum Shade: u32 {\n    A,\n}\npub type Pair {\n    pub a: Shade,\n    pub pad: u32,\n}\nimpl Pair {\n    #[address(0x100)]\n    pub fn f(&self, s: *const Shade) -> Shade;\n}\n", "crate::ui::Widget::Shade"),
+        ]
+        .iter()
+        .enumerate()
+        {
+            if matches!(&only_i, Some((s, i, _)) if s != "module_like_type" || *i != k) {
+                continue;
+            }
+            for parent_first in [true, false] {
+                let parent = ("ui".to_string(), "pub type Widget {\n    pub x: u32,\n}\n".to_string());
+                let kid = ("ui::Widget".to_string(), child.to_string());
+                let input = pipe::Input { modules: if parent_first { vec![parent, kid] } else { vec![kid, parent] } };
+                let v = pipe::run(&input, ps);
+                rep.states += 1;
+                rep.traces += 1;
+                rep.evaluations += 1;
+                rep.transitions += 1;
+                rep.distinct_str(&format!("module_like_type|{k}|{}", v.class()));
+                let viol = match &v {
+                    pipe::Verdict::Panic(p) => Some(("panic".to_string(), p.clone())),
+                    pipe::Verdict::Ok(b) => {
+                        let text = b.files.get("ui/Widget.rs").cloned().unwrap_or_default();
+                        (!synx::normalise(&text).contains(want)).then(|| ("reference_dropped:own_module_named_like_a_type".to_string(), format!("`{want}` does not occur in the output:\n{text}")))
+                    }
+                    other => Some(("defined_name_rejected:own_module_named_like_a_type".to_string(), other.err_text())),
+                };
+                if let Some((key, detail)) = viol {
+                    rep.violation(Violation { key, features: vec!["position:own_module_named_like_a_type".into()], input, ps, detail, locator: json!({"space": "module_like_type", "index": k, "ps": ps}) });
+                }
             }
         }
         // by-value cycles through vftable owners
